@@ -48,6 +48,9 @@ def run_checks(checks, env, tier="quick"):
 
 
 def confirm(src, sid, prop, demo_dir, checks):
+    old = os.path.join(ROOT, "seeded", sid, "patch.diff")
+    if os.path.exists(old) and open(old).read() != open(os.path.join(src, "patch.diff")).read():
+        print("REFUSED: seeded/%s already holds another change; pick a new id" % sid); return 1
     d = tempfile.mkdtemp(prefix="ivgseed-%s-" % sid)
     try:
         repo = os.path.join(d, "repo")
